@@ -12,14 +12,15 @@ VARIABLES l
 tvars == <<l>>
 TInit == l = 1
 IsEv(e) == l <= Len(Trace) /\ Trace[l].ev = e /\ l' = l + 1
-TNext == IsEv("reset") \/ IsEv("reify") \/ IsEv("hop") \/ (l = Len(Trace) + 1 /\ UNCHANGED l)
+TNext == IsEv("crash") \/ IsEv("reset") \/ IsEv("reify") \/ IsEv("hop") \/ (l = Len(Trace) + 1 /\ UNCHANGED l)
 TraceSpec == TInit /\ [][TNext]_tvars
 
 Has == l > 1
 Ev == Trace[l - 1]
 IsR == Has /\ Ev.ev = "reify"
 IsH == Has /\ Ev.ev = "hop"
-Cond_NoPanic == (Has /\ "e" \in DOMAIN Ev) => Ev.e \notin {"panic", "timeout", "budget"}
+NoCrash == ~(l > 1 /\ Trace[l - 1].ev = "crash")   \* the code under test took the whole harness process down (driver: mark_crash)
+Cond_NoPanic == NoCrash /\ ((Has /\ "e" \in DOMAIN Ev) => Ev.e \notin {"panic", "timeout", "budget"})
 \* C14
 Cond_C14_Typed == (IsR /\ Ev.cls \in Classes) => (Ev.res = Expected(Ev.cls) /\ (KindOf(Ev.res) # "any" => Ev.kind = KindOf(Ev.res)))
 Cond_C14_Substrate == (IsR /\ IsADLResult(Ev.res)) => (Ev.subSame /\ Ev.reenc)
